@@ -237,6 +237,7 @@ impl Property for C05 {
             Stream::new("operator-matrix-unary-x-binary", 3 * nb * 3 * np, true, move |i| format!("un:{}:{}:{}:{}", i % 3, (i / 3) % nb, (i / 3 / nb) % 3, i / 9 / nb)),
             Stream::new("postfix-operands", 5 * (nb + 3) * 2, true, move |i| format!("post:{}:{}:{}", i % 5, (i / 5) % (nb + 3), i / 5 / (nb + 3))),
             Stream::new("role-tables", 4 * 2 + 5 * 4 + 30 + 16 + 8 + 2 + 2, true, |i| format!("table:{i}")),
+            Stream::new("empty-statement-bodies", (EMPTY_BODY_CASES.len() * EMPTY_BODY_WRAPS.len()) as u64, true, |i| format!("empty:{i}")),
             Stream::new("random-expression-trees", tier.pick(20_000, 1_000_000), false, move |i| format!("rexpr:{}", mix(&[seed, 0xC05, 1, i]))),
             Stream::new("random-programs-roles", tier.pick(15_000, 800_000), false, move |i| format!("roles:{}", mix(&[seed, 0xC05, 2, i]))),
         ]
@@ -311,6 +312,7 @@ impl Property for C05 {
                 obs.class("role-table");
                 check_roles(&prog, i, "role-table", obs);
             }
+            "empty" => empty_body_case(num(1) as usize, obs),
             "rexpr" => {
                 let mut r = Rng::new(num(1));
                 let mut g = MG::new(&mut r, GenCfg { unique_leaves: true, ..GenCfg::syntax() });
@@ -335,6 +337,77 @@ impl Property for C05 {
     }
     fn mandatory_classes(&self, _tier: Tier) -> Vec<&'static str> {
         vec!["matrix", "role-table"]
+    }
+}
+
+// ---------------------------------------------------------------- empty-statement bodies
+//
+// The model has no empty statement, so the roles of if/else with an empty statement `;` as one of
+// the bodies are checked on a hand-written table: the statement after `else` is the else branch,
+// the (empty) statement after `)` is the then branch - which has no node.
+
+/// (source, then-branch text or "", is block, else-branch text or "", is block)
+const EMPTY_BODY_CASES: &[(&str, &str, bool, &str, bool)] = &[
+    ("if (c) ; else y q;", "", false, "y q;", false),
+    ("if (c) ; else { y q; }", "", false, "{ y q; }", true),
+    ("if (c) ; else if (d) y q;", "", false, "if (d) y q;", false),
+    ("if (c) x q; else ;", "x q;", false, "", false),
+    ("if (c) { x q; } else ;", "{ x q; }", true, "", false),
+    ("if (c) ;", "", false, "", false),
+    ("if (c) ; else ;", "", false, "", false),
+    ("if (c) /* then */ ; /* between */ else /* else */ y q;", "", false, "y q;", false),
+];
+const EMPTY_BODY_WRAPS: &[(&str, &str)] = &[("", ""), ("while (w) { ", " }"), ("gate gg qq { ", " }"), ("x q0; ", " z q1;")];
+
+fn empty_body_case(i: usize, obs: &mut Obs) {
+    use oq3_syntax::ast::{self, AstNode};
+    let (src, then_t, then_blk, else_t, else_blk) = EMPTY_BODY_CASES[i % EMPTY_BODY_CASES.len()];
+    let (pre, post) = EMPTY_BODY_WRAPS[(i / EMPTY_BODY_CASES.len()) % EMPTY_BODY_WRAPS.len()];
+    let text = format!("{pre}{src}{post}\n");
+    obs.fp.str(&text);
+    let r = guard(|| {
+        let p = oq3_syntax::SourceFile::parse(&text);
+        if !p.errors().is_empty() {
+            return Err(format!("{:?}", p.errors().iter().map(|e| e.to_string()).collect::<Vec<_>>()));
+        }
+        let ifs: Vec<ast::IfStmt> = p.syntax_node().descendants().filter_map(ast::IfStmt::cast).collect();
+        let Some(first) = ifs.first() else { return Ok(vec![("if-statement-found".to_string(), "no IfStmt node".to_string())]) };
+        let t = |n: Option<String>| n.unwrap_or_default();
+        let got = [
+            ("then-stmt", t(first.then_branch_stmt().map(|s| s.syntax().text().to_string()))),
+            ("then-block", t(first.then_branch_block().map(|s| s.syntax().text().to_string()))),
+            ("else-stmt", t(first.else_branch_stmt().map(|s| s.syntax().text().to_string()))),
+            ("else-block", t(first.else_branch_block().map(|s| s.syntax().text().to_string()))),
+        ];
+        let want = [
+            ("then-stmt", if then_blk { "" } else { then_t }),
+            ("then-block", if then_blk { then_t } else { "" }),
+            ("else-stmt", if else_blk { "" } else { else_t }),
+            ("else-block", if else_blk { else_t } else { "" }),
+        ];
+        let mut bad = Vec::new();
+        for ((k, g), (_, w)) in got.iter().zip(want.iter()) {
+            if g != w {
+                bad.push((k.to_string(), format!("accessor gives {g:?}, the program has {w:?}")));
+            }
+        }
+        let cond = first.condition().map(|c| c.syntax().text().to_string()).unwrap_or_default();
+        if cond != "c" {
+            bad.push(("condition".to_string(), format!("condition() gives {cond:?}")));
+        }
+        Ok(bad)
+    });
+    match r {
+        Err(p) => obs.inconclusive(format!("parse or accessor panicked: {}", p.site())),
+        Ok(Err(msgs)) => obs.inconclusive(format!("rejected by the parser (C04/C16): {msgs}")),
+        Ok(Ok(bad)) => {
+            for (k, d) in bad {
+                obs.violate(format!("role/if-empty-body/{k}/case{}", i % EMPTY_BODY_CASES.len()), format!("{text:?}: {d}"));
+            }
+            obs.class("empty-body");
+            obs.note = format!("{text:?}: then {then_t:?}, else {else_t:?}");
+            obs.done(true);
+        }
     }
 }
 
